@@ -569,9 +569,18 @@ impl<D: StorageData> Storage<D> {
         let mut current_pos = Self::current_version_record().end();
 
         while current_pos < end {
+            if (end - current_pos) < STORAGE_RECORD_SIZE {
+                return Err(DbError::storage(
+                    DbErrorType::OutOfBounds,
+                    format!(
+                        "Truncated record header at {current_pos} (storage size {end})"
+                    ),
+                ));
+            }
+
             let record = self.read_record(current_pos)?;
 
-            if (end - current_pos + STORAGE_RECORD_SIZE) < record.size {
+            if (end - current_pos - STORAGE_RECORD_SIZE) < record.size {
                 return Err(DbError::storage(
                     DbErrorType::OutOfBounds,
                     format!(
